@@ -681,6 +681,13 @@ func (g *qgen) level(sc scope, top bool) (*Q, scope) {
 			if q.Period > 0 && q.Stride%q.Period != 0 {
 				q.Period = 2
 			}
+			// a stride SHORTER than the period is legal too: the stride is then the output
+			// resolution and every slice is kept (resolutionFor: resolution = stride,
+			// strideSlice = period)
+			if r.Chance(1, 3) {
+				q.Stride = hk.Pick(r, []int{2, 3})
+				q.Period = q.Stride * hk.Pick(r, []int{2, 3})
+			}
 		}
 		if len(q.GroupBy) > 0 {
 			outDims = nil
